@@ -1,6 +1,7 @@
 package main
 
 import (
+	"fmt"
 	"go/token"
 
 	"golang.org/x/tools/go/ssa"
@@ -12,13 +13,99 @@ import (
 // tag writes a duplicate entry.
 
 func init() {
-	register(&Rule{ID: "R16.4", Props: []string{"C16", "C01"}, Floor: 3,
-		Doc: "writer-side membership test (messageStack.hasField): true is returned only under entry.Tag == tag for the entry the search selected; the search is the lower bound of the tag (sort.Search with entry.Tag >= tag) or a scan of the whole table",
+	register(&Rule{ID: "R16.4", Props: []string{"C16", "C01", "C12"}, Floor: 7,
+		Doc: "writer-side table access: every call into messageStack/listStack addresses the table by the stack entry's tableStart (C16, C01, C12); the membership test messageStack.hasField returns true only under entry.Tag == tag for the entry the search selected, the search being the lower bound of the tag or a scan of the whole table (C16, C01)",
 		Run: runR16_4})
 }
 
+// offsetSource names the struct field an integer value was read from (through conversions, local copies and the
+// field-of-a-spilled-struct pattern), or describes the value otherwise.
+func offsetSource(v ssa.Value, depth int) string {
+	if depth > 6 {
+		return "?"
+	}
+	switch x := v.(type) {
+	case *ssa.Field:
+		return fieldOf(x).Name()
+	case *ssa.Convert:
+		return offsetSource(x.X, depth+1)
+	case *ssa.ChangeType:
+		return offsetSource(x.X, depth+1)
+	case *ssa.UnOp:
+		if x.Op == token.MUL {
+			if fa, ok := x.X.(*ssa.FieldAddr); ok {
+				return fieldOf(fa).Name()
+			}
+		}
+	case *ssa.Phi:
+		name := ""
+		for _, e := range x.Edges {
+			s := offsetSource(e, depth+1)
+			if name != "" && s != name {
+				return "several sources"
+			}
+			name = s
+		}
+		return name
+	case *ssa.Call:
+		// accessor method returning the field: entry.tableStart via a getter
+		if cal := x.Call.StaticCallee(); cal != nil && cal.Blocks != nil {
+			rets := returnsOf(cal)
+			if len(rets) == 1 && len(rets[0].Results) == 1 {
+				return offsetSource(rets[0].Results[0], depth+1)
+			}
+		}
+	}
+	return v.Name()
+}
+
 func runR16_4(c *Ctx, r *R) {
-	f := r.Need("internal/writer", "messageStack.hasField")
+	// (0) every caller addresses the table of the message/list being built by the entry's tableStart - the offset
+	// into the table stack recorded when the object was opened - and by nothing else (the data-buffer offset `start`
+	// coincides with it only for a root object in a fresh buffer)
+	outer := r
+	tr := &R{c: c, rule: &Rule{ID: outer.rule.ID, Props: []string{"C16", "C01", "C12"}}} // a wrong offset also panics (D20)
+	mr := &R{c: c, rule: &Rule{ID: outer.rule.ID, Props: []string{"C16", "C01"}}}
+	defer func() { outer.n += tr.n + mr.n }()
+	r = tr
+	nSites := 0
+	for _, fn := range c.SrcFuncs("internal/writer") {
+		cnt := map[string]int{}
+		for _, call := range callsIn(fn, false) {
+			cal := call.Common().StaticCallee()
+			if cal == nil || cal.Signature.Recv() == nil {
+				continue
+			}
+			rn := namedOf(cal.Signature.Recv().Type())
+			if rn == nil || (rn.Obj().Name() != "messageStack" && rn.Obj().Name() != "listStack") {
+				continue
+			}
+			pi := -1
+			for i, p := range cal.Params {
+				if i > 0 && (p.Name() == "tableOffset" || p.Name() == "offset") && isIntegerType(p.Type()) {
+					pi = i
+				}
+			}
+			if pi < 0 || pi >= len(call.Common().Args) {
+				continue
+			}
+			nSites++
+			lbl := rn.Obj().Name() + "." + cal.Name()
+			cnt[lbl]++
+			key := fmt.Sprintf("%s/%s#%d/table-offset", fnKey(fn), lbl, cnt[lbl])
+			src := offsetSource(call.Common().Args[pi], 0)
+			if src == "tableStart" {
+				r.OK(key, call.Pos(), "table addressed by the stack entry's tableStart")
+			} else {
+				r.Bad(key, call.Pos(), "the table offset passed to %s comes from %q, not from the stack entry's tableStart: for a nested message, a list element or a root written into a non-empty buffer the lookup/insert/pop works on the wrong slice of the table stack (Copy/Merge re-copy or skip fields, or panic)", lbl, src)
+			}
+		}
+	}
+	if nSites < 4 {
+		r.Unk("internal/writer/table-offset", 0, "only %d calls into messageStack/listStack with a table offset found (5 confirmed)", nSites)
+	}
+	r = mr
+	f := outer.Need("internal/writer", "messageStack.hasField")
 	if f == nil {
 		return
 	}
